@@ -145,6 +145,12 @@ class ClassInfo:
                     self.class_attrs[st.target.id] = st.value
 
         self._synthesize_dataclass(module)
+        # typing.NamedTuple: ordered fields (with defaults); instances are tuples with named access
+        self.namedtuple_fields = None
+        if any(ast.unparse(b).split(".")[-1] == "NamedTuple" for b in self.node.bases):
+            self.namedtuple_fields = [(st.target.id, st.value) for st in self.node.body if isinstance(st, ast.AnnAssign) and isinstance(st.target, ast.Name)]
+        if deco_fields := getattr(self, "_dataclass_field_names", None):
+            self.dataclass_fields = deco_fields
 
     def _synthesize_dataclass(self, module):
         """@dataclass: the generated __init__ and __eq__ are materialised as analysis-only methods (own annotated
@@ -174,6 +180,7 @@ class ClassInfo:
                 elif v is not None:
                     default = ast.unparse(v)
                 fields.append((st.target.id, default, compare, init))
+        self._dataclass_field_names = [n for n, d, c, i in fields if i]
         src = []
         if "__init__" not in self.methods and "init=False" not in opts:
             params = ", ".join(n + (f"={d}" if d is not None else "") for n, d, c, i in fields if i)
